@@ -8,6 +8,7 @@ handed to the model), error messages."""
 import contextlib
 import io
 import json
+import re
 import string
 from collections import Counter
 
@@ -15,7 +16,7 @@ from . import common as C
 
 PROP = "C13"
 MODEL = "UniqueId"
-SHARD = 14
+SHARD = 30
 CASE_TIMEOUT = 120
 RULE = ("cases: (i) scramble_number on batches of consecutive numbers around 2^k / 10^k / random 1..200 "
         "digits with minbits 10..120 (+ rejected inputs), every call also unscrambled; (ii) "
@@ -27,18 +28,38 @@ RULE = ("cases: (i) scramble_number on batches of consecutive numbers around 2^k
         "(vi) processes that use a generator before and after > 128 other (key, numbits) pairs went through "
         "mask_for_key (lru-cache eviction; observed masks must stay a function); (vii) recipes whose generators "
         "live in hidden fields of a just_once object and are continued through continuation files in the same "
-        "process (distinctness over the union of all runs). "
+        "process (distinctness over the union of all runs); (viii) CHAINS: 2..5 generate_data runs in ONE process - "
+        "fresh runs and continuation runs of 1-2 recipes, with the plugin declared (closed at the end of every run) "
+        "and with the built-ins only, small-id and big-id mode in any order, 1..80 rows x 1..3 iterations per run - "
+        "interleaved with direct scramble_number calls of 2..12 different bit widths in random order, generator "
+        "objects made in one step and drawn from again after later runs, and mask-cache floods; observed as ONE "
+        "trace of constructor calls and draws (class-level wrappers around the public constructors / unique_id "
+        "properties); the model machine (process-wide counter, per-generator index, ONE mask table for the whole "
+        "process, template strings parsed by the model) must reproduce every compared value of every run; oracle: "
+        "one mask per (key, numbits) over the whole process (observed from mask_for_key, or derived from "
+        "argument and result of scramble_number when mask_for_key is not seen), every earlier scramble_number call "
+        "replayed / unscrambled after later runs, all claimed-unique values of all runs pairwise distinct, context "
+        "numbers never reused. "
         "non-trivial: a batch with >= 2 distinct accepted numbers, a process with a generator drawn >= 2 "
         "times, a recipe with >= 2 rows; distinct by case hash")
-TRUSTED = ["harness/c13.py: observation wrappers around scrambled_numbers.mask_for_key / .log and UniqueId.log "
-           "(the model receives the observed mask and the observed int(log)+1 as its Section variables)",
-           "harness/c13.py: template string -> part list parser (strip/lower, pid/context/index/isnumeric)"]
-ASSUMPTIONS = ["Random(key).getrandbits(numbits) is a function of (key, numbits) (checked per case: equal "
-               "arguments gave equal masks)",
-               "int(log(x, 2)) is a function of x",
+TRUSTED = ["harness/c13.py: observation wrappers around scrambled_numbers.mask_for_key / .log / scramble_number and "
+           "UniqueId.log (the model receives the observed mask and the observed int(log)+1 as its Section variables; "
+           "in chain cases the masks form ONE table for the whole process)",
+           "harness/c13.py: class-level wrappers around UniqueNumericIdGenerator / AlphaUniquifier __init__ and "
+           "unique_id (the trace of a chain case)",
+           "harness/c13.py: parse_template is used by the ORACLE only (which generators are claimed distinct); the "
+           "model receives the raw template string and parses it itself (parse_template in UniqueId.v, ASCII)"]
+ASSUMPTIONS = ["the scramble mask is ONE function of (key, numbits) for the whole process (checked: per case, and in "
+               "chain cases across all runs of the process - first observation against every later one, and earlier "
+               "scramble_number calls replayed after later runs)",
+               "int(log(x, 2)) is a function of x (only for the theorems stated with one nbits function; "
+               "C13_scramble_injective_any_bit_count does not need it)",
                "Python int arithmetic and ^ on non-negative ints = Z arithmetic and Z.lxor",
-               "the process-wide counter gives different generators different context numbers (observed per "
-               "generator and checked pairwise different in every case)"]
+               "template strings are ASCII (the model refuses others; Unicode case mapping / numeric characters "
+               "are not modelled)",
+               "old case kinds: the process-wide counter gives different generators different context numbers "
+               "(observed per generator and checked pairwise different); chain cases: the context numbers are "
+               "computed by the model machine from the counter value at the start of the process"]
 EXHAUSTIVE = {"quick": False, "thorough": False}
 
 B62 = string.digits + string.ascii_uppercase + string.ascii_lowercase
@@ -150,9 +171,12 @@ def _template(rng, want_index=True, want_context=None):
         parts.insert(rng.randrange(len(parts) + 1), "context")
     if want_context is False:
         parts = [p for p in parts if p != "context"] or ["index"]
-    # cosmetic variation the constructor normalises (strip / lower)
+    # cosmetic variation the constructor normalises (strip / lower / int of a digit string)
+    ws = [" ", "  ", "\t", "\n", "\r", "\x0b", "\x0c", "\x1c", "\x1d", "\x1e", "\x1f"]
     parts = [(" " + p if rng.random() < 0.2 else p) for p in parts]
-    parts = [(p.upper() if rng.random() < 0.1 else p) for p in parts]
+    parts = [(rng.choice(ws) + p + rng.choice(ws) if rng.random() < 0.1 else p) for p in parts]
+    parts = [(p.upper() if rng.random() < 0.1 else p.capitalize() if rng.random() < 0.05 else p) for p in parts]
+    parts = [("0" * rng.randint(1, 3) + p if p.isdigit() and rng.random() < 0.15 else p) for p in parts]
     return ",".join(parts)
 
 
@@ -178,7 +202,10 @@ def gen_process(rng, tier, malformed=False):
             tpl = _template(rng, want_index=rng.random() < 0.9)
         if malformed and rng.random() < 0.5:
             tpl = rng.choice(["foo", "pid, foo, 9, index", "9.7, index", "", "index,,context", "-5,index",
-                              "index;context", "rand8,index"])
+                              "index;context", "rand8,index", "1_000,index", "+5,index", "in dex", "index,",
+                              ",index", "0x10,index", "1e3,index", "index context", "pid\x00,index", " ,index",
+                              "\u00a0index,context", "\uff11\uff12,index", "\u00b2,index", "INDEX\u0130,context",
+                              "context,index\x7f", "\x1findex\x1c,\tCONTEXT\n", "00,index", "index,index"])
         pid = _pid(rng)
         if malformed and rng.random() < 0.3:
             pid = -rng.randint(1, 50)
@@ -286,6 +313,144 @@ def gen_registry(rng):
             "count": rng.randint(1, 5), "iterations": rng.randint(2, 4), "ctx0": _ctx0(rng)}
 
 
+# ---------------------------------------------------------------- chains of runs in ONE process
+def gen_lineage(rng):
+    """a recipe that is run (fresh) and continued several times in the process"""
+    r = rng.random()
+    if r < 0.3:       # built-in unique_id / unique_alpha_code only: no plugin declaration, nothing is closed
+        fields = rng.choice([["unique_id"], ["unique_id", "unique_alpha_code"], ["unique_id", "unique_id"],
+                             ["unique_alpha_code", "unique_id"]])
+        rec = {"kind": "recipe", "plugin": False, "big": None,
+               "pid": rng.choice([None, None, 3, rng.randint(0, 10 ** 6)]), "vars": [], "fields": fields,
+               "count": 1, "iterations": 1, "ctx0": 1}
+    elif r < 0.45:    # the plugin declared, only its default generator used
+        rec = {"kind": "recipe", "plugin": True, "big": None, "pid": rng.choice([None, None, 3, 4242]), "vars": [],
+               "fields": rng.choice([["UniqueId.unique_id"], ["UniqueId.unique_id", "unique_id"],
+                                     ["UniqueId.unique_id", "UniqueId.unique_id", "unique_alpha_code"]]),
+               "count": 1, "iterations": 1, "ctx0": 1}
+    elif r < 0.7:
+        rec = dict(gen_recipe(rng), plugin=True)
+    else:
+        rec = dict(gen_registry(rng), plugin=True)
+    return rec
+
+
+def _widths(rng):
+    """minbits requests of different widths, in a random order (each width asks mask_for_key for another
+    numbits under the same keys)"""
+    ws = rng.sample([10, 23, 24, 25, 30, 36, 40, 48, 64, 90, 120, 200, 400, 900], rng.randint(2, 6))
+    if rng.random() < 0.5:
+        ws = ws + ws[::-1]
+    return ws
+
+
+def gen_chain(rng, tier, shape=None):
+    """several generate_data runs (fresh runs and continuation runs of 1-2 recipes, with and without the
+    plugin declared, small-id and big-id mode in any order), interleaved with direct scramble_number calls of
+    different bit widths, generator objects that live across run boundaries, and mask-cache floods"""
+    nlin = rng.choice([1, 1, 2])
+    lins = [gen_lineage(rng) for _ in range(nlin)]
+    if shape == "declared":       # every run declares the plugin (it is closed at the end of every run)
+        for ln in lins:
+            if not ln.get("plugin"):
+                ln["plugin"] = True
+                ln["fields"] = ["UniqueId.unique_id"] + [f for f in ln["fields"] if f != "unique_alpha_code"]
+    steps = []
+    started = [False] * nlin
+    nruns = rng.choice([2, 3, 3, 4, 5])
+    big_mode = rng.choice(["small", "small", "big", "mixed", "mixed"])
+    nobj = 0
+    for r in range(nruns):
+        li = rng.randrange(nlin)
+        cont = started[li] and rng.random() < 0.6
+        started[li] = True
+        big = {"small": rng.choice([None, False]), "big": True,
+               "mixed": rng.choice([None, False, True, True])}[big_mode]
+        steps.append({"op": "run", "lin": li, "cont": cont, "big": big,
+                      "count": rng.choice([1, 3, 8, 20, 40, 60, rng.randint(1, 80)]),
+                      "iterations": rng.choice([1, 1, 1, 2, 3])})
+        x = rng.random()
+        if x < 0.25:
+            base = max(0, _number(rng))
+            steps.append({"op": "scramble", "items": [[base + j, w] for w in _widths(rng) for j in range(4)]})
+        elif x < 0.45:
+            gens = []
+            for _ in range(rng.randint(1, 2)):
+                if rng.random() < 0.6:
+                    gens.append({"type": "num", "template": _template(rng, want_context=True), "pid": _pid(rng),
+                                 "randomize": rng.random() < 0.8, "start": rng.choice([1, 1, 0, 1001])})
+                else:
+                    gens.append({"type": "alpha", "template": _template(rng, want_context=True), "pid": _pid(rng),
+                                 "alphabet": rng.choice([None, "", _alphabet(rng, allow_odd=False)]),
+                                 "min_chars": rng.choice([8, 4, 6, 12, 20, rng.randint(0, 30)]),
+                                 "randomize_codes": rng.random() < 0.8})
+            if rng.random() < 0.15:
+                gens.append({"type": "num", "template": rng.choice(["foo", "pid,,index", "index;context"]),
+                             "pid": 3, "randomize": True, "start": 1})
+            steps.append({"op": "objects", "gens": gens})
+            steps.append({"op": "draw", "draws": [[nobj + j, rng.choice([1, 5, 40, rng.randint(1, 200)])]
+                                                  for j in range(len(gens))]})
+            nobj += len(gens)
+        elif x < 0.55:
+            steps.append({"op": "flush", "n": rng.randint(140, 300)})
+        if nobj and rng.random() < 0.5:     # objects made before earlier runs are used again
+            steps.append({"op": "draw", "draws": [[rng.randrange(nobj), rng.choice([1, 8, 30, rng.randint(1, 120)])]
+                                                  for _ in range(rng.randint(1, 2))]})
+    return {"kind": "chain", "ctx0": _ctx0(rng), "lineages": lins, "steps": steps,
+            "checkpoints": rng.choice(["every", "every", "end"])}
+
+
+def gen_chain_edges():
+    """the plainest chains: one small-id recipe declaring the plugin, run and continued / re-run"""
+    out = []
+    for cont in (True, False):
+        for fields in (["UniqueId.unique_id"], ["unique_id", "UniqueId.unique_id"]):
+            lin = {"kind": "recipe", "plugin": True, "big": None, "pid": None, "vars": [], "fields": fields,
+                   "count": 1, "iterations": 1, "ctx0": 1}
+            out.append({"kind": "chain", "ctx0": 1, "lineages": [lin], "checkpoints": "end",
+                        "steps": [{"op": "run", "lin": 0, "cont": cont and i > 0, "big": False, "count": 60,
+                                   "iterations": 1} for i in range(3)]})
+    return out
+
+
+def gen_literal_pairs(rng):
+    """two or three generators whose templates spell the same digits around a 9: `a9b` as one literal against
+    `a, b` as two (the join uses 9 as the separator, which is sound only because every chunk is octal)"""
+    a, b = rng.choice([1, 2, 3, 7, 12, 45]), rng.choice([1, 2, 5, 17, 92, 192])
+    t1 = f"{a}9{b},index"
+    t2 = f"{a},{b},index"
+    t3 = f"{a},{b}9,index" if rng.random() < 0.5 else f"{a}9{b}9,index"
+    alpha = rng.random() < 0.4
+    pid = rng.choice([None, 3])
+    gens = []
+    for t in (t1, t2, t3):
+        if alpha:
+            gens.append({"type": "alpha", "template": t, "pid": pid, "alphabet": None, "min_chars": 8,
+                         "randomize_codes": True})
+        else:
+            gens.append({"type": "num", "template": t, "pid": pid, "randomize": True, "start": 1})
+    n = rng.randint(20, 200)
+    return {"kind": "gens", "gens": gens, "schedule": [[gi, n] for gi in range(3)],
+            "sample": {str(gi): [0, 1, 7, 8, n - 1] for gi in range(3)}, "ctx0": _ctx0(rng)}
+
+
+def gen_padding_probe(rng, abc=None):
+    """one sequential (randomize_codes false) alpha generator over an alphabet that is NOT written in ascending
+    order, min_chars one above the natural code length, thousands of draws: padding with anything but the zero
+    digit makes a padded short code equal to the natural code of a later, larger number"""
+    if abc is None:
+        abc = rng.choice(["GATC", "TGCA", "ZYX", "BA", "10", "cba", "".join(rng.sample(B62, rng.randint(2, 6)))])
+    b = len(abc)
+    n, natural = 1751, 1            # first number: index 1001 = 0o1751, read as the decimal number 1751
+    while b ** natural <= n:
+        natural += 1
+    draws = 7000
+    return {"kind": "gens", "ctx0": 1,
+            "gens": [{"type": "alpha", "template": "index", "pid": 3, "alphabet": abc, "min_chars": natural + 1,
+                      "randomize_codes": False}],
+            "schedule": [[0, draws]], "sample": {"0": [0, 1, 2, 31, 32, 33, 511, 512, draws - 1]}}
+
+
 def generate(rng, tier):
     q = tier == "quick"
     cases = list(gen_scramble_edges())
@@ -307,10 +472,32 @@ def generate(rng, tier):
         cases.append(gen_evict(rng, i % 3))
     for _ in range(6 if q else 120):
         cases.append(gen_registry(rng))
+    for _ in range(3 if q else 40):
+        cases.append(gen_literal_pairs(rng))
+    for _ in range(1 if q else 6):
+        cases.append(gen_padding_probe(rng))
+    cases.extend(gen_chain_edges())
+    for i in range(14 if q else 200):
+        cases.append(gen_chain(rng, tier, shape="declared" if i % 3 == 0 else None))
     return cases
 
 
 # ================================================================ implementation side
+def _keep_attrs(wrapper, orig):
+    """the wrapper stays usable like the original (lru_cache's cache_clear / cache_info / __wrapped__ ...)"""
+    import functools
+    try:
+        functools.update_wrapper(wrapper, orig)
+    except Exception:
+        pass
+    for name in ("cache_clear", "cache_info", "cache_parameters"):
+        if hasattr(orig, name):
+            try:
+                setattr(wrapper, name, getattr(orig, name))
+            except Exception:
+                pass
+
+
 @contextlib.contextmanager
 def _observe():
     """Record what the implementation's own mask_for_key / log return (no re-implementation)."""
@@ -328,6 +515,7 @@ def _observe():
             r = orig_mask(key, numbits)
             ev.append(("mask", key, numbits, r))
             return r
+        _keep_attrs(mask_for_key, orig_mask)
         saved.append((sn, "mask_for_key", orig_mask))
         sn.mask_for_key = mask_for_key
     if have["log"]:
@@ -434,6 +622,8 @@ def run_impl(case):
         return _run_process(case)
     if kind == "recipe":
         return _run_recipe(case)
+    if kind == "chain":
+        return _run_chain(case)
     raise ValueError(kind)
 
 
@@ -454,6 +644,8 @@ def _set_ctx0(U, case):
     cls = getattr(U, "UniqueNumericIdGenerator", None)
     if isinstance(ctx0, int) and cls is not None and isinstance(getattr(cls, "context_uniqifier", None), itertools.count):
         cls.context_uniqifier = itertools.count(ctx0)
+        return True
+    return False
 
 
 def _run_process(case):
@@ -564,7 +756,7 @@ def recipe_text(case):
     # leading zero (str(int(code)) == code).  With version 3 ("native types") a code that reads as a Python
     # literal is replaced by that literal's value (finding C13-native-literal); only corpus cases ask for it.
     lines = (["- snowfakery_version: 3"] if case.get("native") else []) + \
-        ["- plugin: snowfakery.standard_plugins.UniqueId"]
+        (["- plugin: snowfakery.standard_plugins.UniqueId"] if case.get("plugin", True) else [])
     reg = bool(case.get("registry"))
     if reg:
         lines += ["- object: IdRegistry", "  nickname: Registry", "  just_once: true", "  fields:"]
@@ -608,6 +800,355 @@ def recipe_text(case):
             (f"Registry.__{s}.unique_id" if reg else f"{s}.unique_id")
         lines.append(f"    f{i}: ${{{{{expr}}}}}")
     return "\n".join(lines) + "\n"
+
+
+# ---------------------------------------------------------------- chains: process-wide trace
+_SIMPLE = (str, int, bool, type(None))
+
+
+class _Trace:
+    """Everything the generator classes do in this process, observed from outside through class-level wrappers
+    around the PUBLIC constructors and the PUBLIC unique_id properties: constructor calls (arguments, outcome) and
+    draws (value / error, with the mask and int(log) values seen during the draw), in order, over all runs."""
+
+    def __init__(self, U, sn, ev, have):
+        self.U, self.sn, self.ev, self.have = U, sn, ev, have
+        self.events = []          # ["new", g] | ["newerr", type, kw, err] | ["draw", g, rec] | ["skip", g, n] | ["boundary"]
+        self.gens = []            # per successfully constructed top-level generator
+        self.objs = []            # strong references: id() is never reused while the trace lives
+        self.index = {}           # id(obj) -> g
+        self.values = []          # per generator: value -> first draw number
+        self.cdepth = self.ddepth = 0
+        self.complete = True
+        self.installed = False
+        self.patches = []
+        self.mask_tab, self.mask_changed = {}, None
+        self.step = 0             # index of the step of the chain that is being executed
+        self.scr = []             # [step, number, minbits, value] of scramble_number calls (sampled)
+        self.scr_seen = 0
+        self.replay_fail = None
+        self.orig_scramble = None
+
+    # ---- installation
+    def install(self):
+        U = self.U
+        try:
+            for typ, cls in (("num", U.UniqueNumericIdGenerator), ("alpha", U.AlphaUniquifier)):
+                orig_init = cls.__dict__["__init__"]
+                prop = cls.__dict__["unique_id"]
+                fget = prop.fget
+                if not callable(orig_init) or not callable(fget):
+                    raise AttributeError("unique_id")
+                cls.__init__ = self._mk_init(orig_init, typ)
+                self.patches.append((cls, "__init__", orig_init))
+                setattr(cls, "unique_id", property(self._mk_getter(fget)))
+                self.patches.append((cls, "unique_id", prop))
+            self.installed = True
+        except (AttributeError, KeyError, TypeError):
+            self.uninstall()
+            self.installed = False
+        orig = getattr(self.sn, "scramble_number", None)
+        if callable(orig) and self.installed:
+            self.orig_scramble = orig
+
+            def scramble_number(number, *a, **kw):
+                r = orig(number, *a, **kw)
+                mb = a[0] if a else kw.get("minbits", 10)
+                if isinstance(number, int) and isinstance(mb, int) and isinstance(r, int):
+                    self.ev.append(("scr", number, mb, r))
+                    self._note_scramble(number, mb, r)
+                return r
+            _keep_attrs(scramble_number, orig)
+            # the generator classes reach it through the name imported into UniqueId.py, or through the module
+            for mod in (U, self.sn):
+                if getattr(mod, "scramble_number", None) is orig:
+                    mod.scramble_number = scramble_number
+                    self.patches.append((mod, "scramble_number", orig))
+
+    def uninstall(self):
+        for obj, name, orig in reversed(self.patches):
+            setattr(obj, name, orig)
+        self.patches = []
+
+    def _mk_init(self, orig_init, typ):
+        tr = self
+
+        def __init__(obj, *a, **kw):
+            tr.cdepth += 1
+            err = None
+            try:
+                orig_init(obj, *a, **kw)
+            except BaseException as e:  # noqa
+                err = e
+                raise
+            finally:
+                tr.cdepth -= 1
+                if tr.cdepth == 0 and not isinstance(err, (KeyboardInterrupt, C._CaseTimeout)):
+                    if tr.ddepth == 0:
+                        tr._created(typ, obj, a, kw, err)
+                    else:          # a generator made in the middle of a draw: the trace has no place for it
+                        tr.complete = False
+        return __init__
+
+    def _mk_getter(self, fget):
+        tr = self
+
+        def getter(obj):
+            top = tr.ddepth == 0 and tr.cdepth == 0
+            i0 = len(tr.ev)
+            tr.ddepth += 1
+            r = {}
+            try:
+                v = fget(obj)
+                r["ok"] = v
+                return v
+            except BaseException as e:  # noqa
+                if isinstance(e, (KeyboardInterrupt, C._CaseTimeout)):
+                    top = False
+                r["err"] = C.canon_exc(e)
+                raise
+            finally:
+                tr.ddepth -= 1
+                if top:
+                    tr._drawn(obj, r, i0)
+        return getter
+
+    # ---- recording
+    def _created(self, typ, obj, a, kw, err):
+        simple = not a and all(isinstance(v, _SIMPLE) for v in kw.values())
+        kwj = {k: v for k, v in kw.items() if isinstance(v, _SIMPLE)}
+        if err is not None:
+            self.events.append(["newerr", typ, kwj if simple else None, C.canon_exc(err)])
+            return
+        g = len(self.gens)
+        self.index[id(obj)] = g
+        self.objs.append(obj)
+        o = _gen_attrs(obj, typ)
+        o.update({"type": typ, "kw": kwj if simple else None, "n": 0, "nerr": 0, "errs": {}, "bpc": None,
+                  "dup_within": None, "bad_alpha": None, "since": 0, "made_in_step": self.step})
+        self.gens.append(o)
+        self.values.append({})
+        self.events.append(["new", g])
+
+    def _note_masks(self, events):
+        """the process-wide table (key, numbits) -> mask.  A mask is what mask_for_key returned; for a
+        scramble_number call during which mask_for_key was not seen (renamed / inlined) it is what the argument
+        and the result determine: result // 10^4 xor number // 10, under key number % 10, numbits result % 1000."""
+        seen_mask = False
+        for e in events:
+            key = None
+            if e[0] == "mask":
+                key, m = (e[1], e[2]), e[3]
+                seen_mask = True
+            elif e[0] == "scr":
+                if not seen_mask:
+                    key, m = (e[1] % 10, e[3] % 1000), (e[3] // 10000) ^ (e[1] // 10)
+                seen_mask = False
+            if key is not None:
+                old = self.mask_tab.setdefault(key, (m, self.step))
+                if old[0] != m and self.mask_changed is None:
+                    self.mask_changed = [key[0], key[1], old[0], m, old[1], self.step]
+
+    def _note_scramble(self, number, mb, r):
+        self.scr_seen += 1
+        k = self.scr_seen
+        if k <= 60 or k % 13 == 0 or sum(1 for x in self.scr[-8:] if x[0] == self.step) < 8:
+            if len(self.scr) < 1500:
+                self.scr.append([self.step, number, mb, r])
+
+    def _drawn(self, obj, r, i0):
+        evs = self.ev[i0:]
+        del self.ev[i0:]
+        self._note_masks(evs)
+        g = self.index.get(id(obj))
+        if g is None or self.objs[g] is not obj:
+            self.complete = False
+            return
+        o = self.gens[g]
+        k = o["n"]
+        o["n"] += 1
+        rec = dict(r, k=k)
+        if "err" in r:
+            o["nerr"] += 1
+            o["errs"][r["err"]] = o["errs"].get(r["err"], 0) + 1
+        obs1 = _obs_of(evs)
+        sc = [e for e in evs if e[0] == "scr"]
+        if "ok" in r and len(sc) == 1:
+            if obs1["mask"] is None:       # mask_for_key was not seen during this draw: see _note_masks
+                obs1["mask"] = (sc[0][3] // 10000) ^ (sc[0][1] // 10)
+                obs1["ncalls"] = 1
+            if obs1["nb"] is None:         # the float log was not seen: the numbits the result carries
+                obs1["nb"] = sc[0][3] % 1000
+        if obs1["bpc"] is not None:
+            o["bpc"] = obs1["bpc"]
+        keep = k < 10 or o["since"] < 4 or k % 41 == 0
+        o["since"] += 1
+        if keep:
+            rec.update(obs1)
+            self.events.append(["draw", g, rec])
+        elif self.events and self.events[-1][0] == "skip" and self.events[-1][1] == g:
+            self.events[-1][2] += 1
+        else:
+            self.events.append(["skip", g, 1])
+        if "ok" in r:
+            v = r["ok"]
+            vals = self.values[g]
+            try:
+                if v in vals and o["dup_within"] is None:
+                    o["dup_within"] = [vals[v], k, v if isinstance(v, (int, str)) else repr(v)]
+                vals.setdefault(v, k)
+            except TypeError:
+                pass
+            if o["type"] == "alpha" and o["bad_alpha"] is None and o["kw"] is not None:
+                abc = o["kw"].get("alphabet") or DEFAULT_ALPHABET
+                mc = o["kw"].get("min_chars", 8)
+                if not isinstance(v, str) or not isinstance(abc, str) or any(ch not in abc for ch in v):
+                    o["bad_alpha"] = ["charset", k, v if isinstance(v, (int, str)) else repr(v)]
+                elif isinstance(mc, int) and len(v) < mc:
+                    o["bad_alpha"] = ["length", k, v]
+
+    def boundary(self):
+        self.events.append(["boundary"])
+        for o in self.gens:
+            o["since"] = 0
+
+    # ---- later in the process: is every scramble of earlier runs still undone / reproduced?
+    def replay(self):
+        if self.orig_scramble is None:
+            return
+        un = getattr(self.sn, "unscramble_number", None)
+        todo = self.scr if len(self.scr) <= 240 else self.scr[:120] + self.scr[-120:]
+        for made, number, mb, v in todo:
+            i0 = len(self.ev)
+            back = _call(un, v) if callable(un) else {"ok": number}
+            again = _call(self.orig_scramble, number, mb)
+            self._note_masks(self.ev[i0:])
+            del self.ev[i0:]
+            if (back.get("ok") != number or again.get("ok") != v) and self.replay_fail is None:
+                self.replay_fail = {"made_in_step": made, "checked_after_step": self.step, "number": number,
+                                    "minbits": mb, "value": v, "unscrambled_now": back, "scrambled_now": again}
+
+
+def _chain_run_case(case, step):
+    lin = case["lineages"][step["lin"]]
+    return dict(lin, big=step["big"], count=step["count"], iterations=step["iterations"])
+
+
+def _run_chain(case):
+    import snowfakery.standard_plugins.UniqueId as U
+    import snowfakery.utils.scrambled_numbers as sn
+    from snowfakery import generate_data
+    ctx_set = _set_ctx0(U, case)
+    runs, direct, scr_out = [], [], []
+    conts = {}
+    with _observe() as (ev, have):
+        tr = _Trace(U, sn, ev, have)
+        tr.install()
+        try:
+            for si, step in enumerate(case["steps"]):
+                tr.step = si
+                op = step["op"]
+                if op == "run":
+                    rc = _chain_run_case(case, step)
+                    opts = {}
+                    if rc["big"] is not None:
+                        opts["big_ids"] = "true" if rc["big"] else "false"
+                    if rc["pid"] is not None:
+                        opts["pid"] = rc["pid"]
+                    nf = len(rc["fields"])
+                    res = {"step": si}
+                    try:
+                        out, nxt = io.StringIO(), io.StringIO()
+                        prev = conts.get(step["lin"]) if step["cont"] else None
+                        kw = {}
+                        if rc["iterations"] > 1:
+                            kw["target_number"] = ("A", rc["count"] * rc["iterations"])
+                        generate_data(io.StringIO(recipe_text(rc)), output_file=out, output_format="json",
+                                      plugin_options=opts, continuation_file=io.StringIO(prev) if prev else None,
+                                      generate_continuation_file=nxt, **kw)
+                        conts[step["lin"]] = nxt.getvalue()
+                        res["rows"] = [[row.get(f"f{i}") for i in range(nf)] for row in json.loads(out.getvalue())
+                                       if row.get("_table") == "A"]
+                    except BaseException as e:  # noqa
+                        if isinstance(e, (KeyboardInterrupt, C._CaseTimeout)):
+                            raise
+                        res["err"] = C.canon_exc(e)
+                    runs.append(res)
+                    tr._note_masks(ev)
+                    del ev[:]
+                    tr.boundary()
+                elif op == "scramble":
+                    items = []
+                    for number, minbits in step["items"]:
+                        i0 = len(ev)
+                        r = _call(tr.orig_scramble or sn.scramble_number, number, minbits)
+                        if "ok" in r:
+                            r["back"] = _call(sn.unscramble_number, r["ok"])
+                            if isinstance(r["ok"], int) and isinstance(number, int):
+                                ev.append(("scr", number, minbits, r["ok"]))
+                                tr._note_scramble(number, minbits, r["ok"])
+                        tr._note_masks(ev[i0:])
+                        del ev[i0:]
+                        items.append(r)
+                    scr_out.append({"step": si, "items": items})
+                elif op == "objects":
+                    for spec in step["gens"]:
+                        try:
+                            if spec["type"] == "num":
+                                g = U.UniqueNumericIdGenerator(parts=spec["template"], pid=spec["pid"],
+                                                               randomize=spec["randomize"], start=spec["start"])
+                            else:
+                                g = U.AlphaUniquifier(parts=spec["template"], pid=spec["pid"],
+                                                      alphabet=spec["alphabet"], min_chars=spec["min_chars"],
+                                                      randomize_codes=spec["randomize_codes"])
+                        except BaseException as e:  # noqa
+                            if isinstance(e, (KeyboardInterrupt, C._CaseTimeout)):
+                                raise
+                            g = None
+                        direct.append(g)
+                elif op == "draw":
+                    for di, n in step["draws"]:
+                        g = direct[di] if 0 <= di < len(direct) else None
+                        if g is None:
+                            continue
+                        for _ in range(n):
+                            try:
+                                g.unique_id
+                            except BaseException as e:  # noqa
+                                if isinstance(e, (KeyboardInterrupt, C._CaseTimeout)):
+                                    raise
+                elif op == "flush":
+                    i0 = len(ev)
+                    for j in range(step["n"]):
+                        _call(tr.orig_scramble or sn.scramble_number, j % 10, 24 + j)
+                    tr._note_masks(ev[i0:])
+                    del ev[i0:]
+                if case.get("checkpoints") == "every":
+                    tr.replay()
+            tr.step = len(case["steps"])
+            tr.replay()
+        finally:
+            tr.uninstall()
+    # same-shape generators anywhere in the process: a value in common?
+    cross = []
+    ng = len(tr.gens)
+    if ng <= 400:
+        for i in range(ng):
+            for j in range(i + 1, ng):
+                a, b = tr.values[i], tr.values[j]
+                small, other = (a, b) if len(a) <= len(b) else (b, a)
+                for v in small:
+                    if v in other:
+                        cross.append([i, j, a[v], b[v], v if isinstance(v, (int, str)) else repr(v)])
+                        break
+                if len(cross) >= 50:
+                    break
+    gens = [{k: v for k, v in o.items() if k != "since"} for o in tr.gens]
+    return {"runs": runs, "scrambles": scr_out, "events": tr.events, "gens": gens, "cross": cross,
+            "have": have, "installed": tr.installed, "complete": tr.complete, "ctx_set": bool(ctx_set),
+            "masks": [[k[0], k[1], m[0]] for k, m in tr.mask_tab.items()],
+            "mask_changed": tr.mask_changed, "replay_fail": tr.replay_fail,
+            "replayed": tr.orig_scramble is not None, "n_scr": tr.scr_seen}
 
 
 _DELETE = object()
@@ -740,7 +1281,7 @@ def _run_recipe(case):
             o.update({"type": "num", "restored_args": args if simple else None,
                       "draws": draws.get(id(obj), [])[:400], "ndraws": len(draws.get(id(obj), [])), "bpc": None})
             gens.append(o)
-    res.update({"gens": gens, "instrumented": instrumented, "have": have})
+    res.update({"gens": gens, "instrumented": instrumented, "have": have, "mask_is_function": _mask_table_ok(ev)})
     return res
 
 
@@ -774,9 +1315,20 @@ def parse_template(tpl):
     return parts
 
 
-def _tpl(tpl):
-    p = parse_template(tpl)
-    return None if p is None else C.clist(p)
+def _ascii_src(tpl):
+    """the template string as code points, or None when the model does not cover it (non-ASCII: Unicode case
+    mapping / numeric characters are not modelled; literals beyond Python's int-from-string limit)"""
+    if not isinstance(tpl, str) or any(ord(ch) >= 128 for ch in tpl):
+        return None
+    if any(len(p.strip()) > 4000 for p in tpl.split(",")):
+        return None
+    return _codes(tpl)
+
+
+def _parsed(tpl, body):
+    """GParsed <string> (fun tpl => <body>): the Coq model parses the string itself"""
+    src = _ascii_src(tpl)
+    return None if src is None or body is None else f"GParsed {src} (fun tpl => {body})"
 
 
 def _pid_list(pid_str, pid_arg):
@@ -840,9 +1392,11 @@ def _needs_bpc(draws):
 
 
 def _gcase_direct(spec, o, have):
-    tpl = _tpl(spec["template"])
-    if tpl is None:
-        return None
+    return _parsed(spec["template"], _gcase_direct_body(spec, o, have))
+
+
+def _gcase_direct_body(spec, o, have):
+    tpl = "tpl"
     if spec["type"] == "num":
         if "ctor_err" in o:
             return f"GNumErr {tpl} {C.cerr(o['ctor_err'])}"
@@ -886,12 +1440,13 @@ def _gcase_factory(case, o, have):
     big = C.cbool(bool(case["big"]))
     user = kw.get("template")
     if user:
-        t = _tpl(user)
-        if t is None:
+        if not isinstance(user, str):
             return None
-        user_t = f"(Some {t})"
+        user_t = "(Some tpl)"
+        wrap = lambda body: _parsed(user, body)        # noqa: E731
     else:
         user_t = "None"
+        wrap = lambda body: body                       # noqa: E731
     pid = _pid_list(o.get("pid_str"), case["pid"])
     if pid is None or not isinstance(o.get("ctx"), int):
         return None
@@ -903,7 +1458,7 @@ def _gcase_factory(case, o, have):
         dr = _draw_terms(o["draws"][:48], "Draw", _zres, have, True)
         if dr is None:
             return None
-        return f"GFacNum {big} {user_t} {C.clist(_cz(x) for x in pid)} {_cz(o['ctx'])} {dr}"
+        return wrap(f"GFacNum {big} {user_t} {C.clist(_cz(x) for x in pid)} {_cz(o['ctx'])} {dr}")
     if set(kw) - {"template", "alphabet", "min_chars", "randomize_codes"}:
         return None
     abc = kw.get("alphabet")
@@ -918,8 +1473,8 @@ def _gcase_factory(case, o, have):
     dr = _draw_terms(o["draws"][:48], "ADraw", _sres, have, rc)
     if dr is None:
         return None
-    return (f"GFacAlpha {big} {user_t} {C.clist(_cz(x) for x in pid)} {_cz(o['ctx'])} {_abc_opt(abc)} "
-            f"{_cz(mc)} {C.cbool(rc)} {_cz(o.get('bpc') or 0)} {dr}")
+    return wrap(f"GFacAlpha {big} {user_t} {C.clist(_cz(x) for x in pid)} {_cz(o['ctx'])} {_abc_opt(abc)} "
+                f"{_cz(mc)} {C.cbool(rc)} {_cz(o.get('bpc') or 0)} {dr}")
 
 
 def _gcase_restored(o, have):
@@ -934,6 +1489,112 @@ def _gcase_restored(o, have):
     spec = {"type": "num", "template": a["parts"], "pid": None, "randomize": a.get("randomize", True),
             "start": a.get("start", 1)}
     return _gcase_direct(spec, dict(o, draws=o["draws"][:48]), have)
+
+
+def _chain_spec(typ, kw, pid_list):
+    """constructor keyword arguments -> pspec term (None: outside the model)"""
+    if not isinstance(kw, dict):
+        return None
+    src = _ascii_src(kw.get("parts"))
+    if src is None:
+        return None
+    pidt = C.clist(_cz(x) for x in pid_list)
+    if typ == "num":
+        if set(kw) - {"parts", "pid", "min_chars", "randomize", "start"}:
+            return None
+        start, rand = kw.get("start", 1), kw.get("randomize", True)
+        if isinstance(start, bool) or not isinstance(start, int) or not isinstance(rand, bool):
+            return None
+        return f"SNum {src} {pidt} {_cz(start)} {C.cbool(rand)}"
+    if set(kw) - {"parts", "pid", "alphabet", "min_chars", "randomize_codes"}:
+        return None
+    abc, mc, rc = kw.get("alphabet"), kw.get("min_chars", 8), kw.get("randomize_codes", True)
+    if (abc is not None and not isinstance(abc, str)) or isinstance(mc, bool) or not isinstance(mc, int) \
+            or not isinstance(rc, bool):
+        return None
+    return f"SAlpha {src} {pidt} {_abc_opt(abc)} {_cz(mc)} {C.cbool(rc)}"
+
+
+def _gval(typ):
+    if typ == "num":
+        return lambda v: f"(VNum {_cz(v)})" if isinstance(v, int) and not isinstance(v, bool) else None
+    return lambda v: f"(VCode {_codes(v)})" if isinstance(v, str) else None
+
+
+def _chain_term(case, obs, max_draws=500):
+    if not obs.get("installed") or not obs.get("complete"):
+        return None
+    have = obs.get("have", {})
+    gens = obs["gens"]
+    evs = obs["events"]
+    # Context numbers: when every generator shows its number, the model checks that each one is not below the
+    # counter (= above every number handed out before) and takes the numbers in between as used up by whatever
+    # else (failed constructors, ...).  Otherwise the model computes the numbers itself from the counter value
+    # at the start (a failed constructor call then counts for one number, as in the code).
+    observed = bool(gens) and all(isinstance(o.get("ctx"), int) for o in gens)
+    if obs.get("ctx_set"):
+        c0 = case["ctx0"]
+    elif observed:
+        c0 = min(o["ctx"] for o in gens)
+    else:
+        return None
+    specs = []
+    for o in gens:
+        kw = o.get("kw")
+        pid = _pid_list(o.get("pid_str"), (kw or {}).get("pid"))
+        sp = _chain_spec(o["type"], kw, pid) if pid is not None else None
+        if sp is None:
+            return None          # a generator made with arguments the model does not cover: no comparison
+        specs.append(sp)
+    bpcs = {}
+    for o in gens:
+        if o["type"] == "alpha" and o.get("bpc") is not None:
+            bpcs.setdefault(len((o["kw"].get("alphabet") or DEFAULT_ALPHABET)), o["bpc"])
+    terms, ndraws = [], 0
+    for e in evs:
+        if e[0] == "new":
+            ctx = f"(Some {_cz(gens[e[1]]['ctx'])})" if observed else "None"
+            terms.append(f"ENew ({specs[e[1]]}) {ctx}")
+        elif e[0] == "newerr":
+            sp = _chain_spec(e[1], e[2], [])
+            if sp is None:
+                return None
+            terms.append(f"ENewErr ({sp}) {C.cerr(e[3])} {C.cbool(not observed)}")
+        elif e[0] == "boundary":
+            terms.append("EBoundary")
+        elif e[0] == "skip":
+            terms.append(f"ESkip {e[1]}%nat {e[2]}%nat")
+        elif e[0] == "draw":
+            g, r = e[1], e[2]
+            o = gens[g]
+            kw = o["kw"]
+            scr = kw.get("randomize", True) if o["type"] == "num" else kw.get("randomize_codes", True)
+            usable = ndraws < max_draws and r.get("ncalls", 0) <= 1
+            if scr and "ok" in r and r.get("mask") is None:
+                usable = False           # the mask could not be observed: nothing to compare against
+            if scr and "ok" in r and r.get("nb") is None:
+                usable = False
+            if o["type"] == "alpha" and scr and (not have.get("ulog") or
+                                                 (o.get("bpc") is None and _needs_bpc([r]))):
+                usable = False
+            exp = None
+            if usable:
+                if "ok" in r:
+                    v = _gval(o["type"])(r["ok"])
+                    exp = None if v is None else f"(Ok {v})"
+                else:
+                    exp = f"(Err {C.cerr(r['err'])})"
+            if exp is None:
+                terms.append(f"ESkip {g}%nat 1%nat")
+            else:
+                ndraws += 1
+                terms.append(f"EDraw {g}%nat {_nb(r)} {exp}")
+    if not ndraws:
+        return None
+    masks = C.clist(f"({_cz(k)}, {_cz(nb)}, {_cz(m)})" for k, nb, m in obs.get("masks", [])
+                    if isinstance(k, int) and isinstance(nb, int) and isinstance(m, int))
+    bpct = C.clist(f"({_cz(k)}, {_cz(v)})" for k, v in sorted(bpcs.items()))
+    return f"CProc {_cz(c0)} {masks} {bpct} {C.clist(terms)}"
 
 
 def coq_case(case, obs):
@@ -980,6 +1641,8 @@ def coq_case(case, obs):
             if t is not None:
                 terms.append(t)
         return f"CGens {C.clist(terms)}" if terms else None
+    if kind == "chain":
+        return _chain_term(case, obs)
     if kind == "recipe":
         if not obs.get("instrumented"):
             return None
@@ -1049,23 +1712,85 @@ def _native(code):
         return code
 
 
-def _recipe_failures(case, obs):
-    """(other_failures, k5_collisions, native_mangled, cross_shape_collisions)
+class _Scan:
+    """distinctness / charset / length of the field values of one or several runs of ONE process.
     K5 = collisions among alpha codes that all come from alpha generators created WITHOUT a template in
     small-id mode.  native_mangled = (native-types recipes only) alpha field values that are not the code the
     generator returned but the value of that code read as a Python literal.  cross_shape = equal values from
     generators whose template shapes differ."""
-    other, k5, mangled, xshape = [], [], [], []
-    small = not case["big"]
-    if "err" in obs:
-        if obs["err"] == "DGE" and _min_bits_too_small(case):
-            return [], [], [], []     # scramble_number's own `assert minbits >= 10` (an error, not a collision)
-        return [f"recipe: a valid recipe failed with {obs['err']}"], [], [], []
-    rows = obs["rows"]
-    src = _recipe_sources(case)
-    expected_rows = case["count"] * case["iterations"]
-    if len(rows) < expected_rows:
-        other.append(f"recipe: {len(rows)} rows instead of at least {expected_rows}")
+
+    def __init__(self):
+        self.other, self.k5, self.mangled, self.xshape = [], [], [], []
+        self.seen_num, self.seen_alpha = {}, {}
+
+    def run(self, case, obs, recorded=None, complete=False, label=""):
+        other, k5, mangled, xshape = self.other, self.k5, self.mangled, self.xshape
+        seen_num, seen_alpha = self.seen_num, self.seen_alpha
+        small = not case["big"]
+        if "err" in obs:
+            if obs["err"] == "DGE" and _min_bits_too_small(case):
+                return            # scramble_number's own `assert minbits >= 10` (an error, not a collision)
+            other.append(f"recipe: {label}a valid recipe failed with {obs['err']}")
+            return
+        rows = obs["rows"]
+        src = _recipe_sources(case)
+        expected_rows = case["count"] * case["iterations"]
+        if len(rows) < expected_rows:
+            other.append(f"recipe: {label}{len(rows)} rows instead of at least {expected_rows}")
+        recorded = recorded or []
+        for ri, row in enumerate(rows):
+            for fi, v in enumerate(row):
+                s = src[fi]
+                here = (f"{label}row {ri} f{fi}", s, case["fields"][fi])
+                if v is None:
+                    other.append(f"recipe: {label}row {ri} field f{fi} is empty")
+                    continue
+                if s["type"] == "num":
+                    if not isinstance(v, int):
+                        other.append(f"recipe: numeric id f{fi} is not an integer: {v!r}")
+                        continue
+                    if s["unique"]:
+                        if v in seen_num:
+                            prev = seen_num[v]
+                            if prev[1]["shape"] != s["shape"]:
+                                xshape.append((v, prev, here))
+                            else:
+                                other.append(f"recipe: numeric id {v} appears twice: {prev[0]} and {here[0]}")
+                        seen_num.setdefault(v, here)
+                else:
+                    code = str(v)      # the output layer turns all-digit strings without a leading 0 into ints
+                    abc = s["alphabet"]
+                    bad = None
+                    if any(ch not in abc for ch in code):
+                        bad = f"recipe: alpha code {v!r} (f{fi}) has characters outside {abc!r}"
+                    elif len(code) < s["min_chars"]:
+                        bad = f"recipe: alpha code {v!r} (f{fi}) shorter than min_chars={s['min_chars']}"
+                    if bad:
+                        origin = [c for c in recorded if type(_native(c)) is type(v) and _native(c) == v
+                                  and all(ch in abc for ch in c) and len(c) >= s["min_chars"]]
+                        if case.get("native") and complete and not isinstance(v, str) and origin:
+                            mangled.append((v, origin[0], ri, fi))
+                        else:
+                            other.append(bad)
+                        continue
+                    if s["unique"]:
+                        key = (abc, code)
+                        if key in seen_alpha:
+                            prev = seen_alpha[key]
+                            if small and s["default"] and prev[1]["default"] and prev[1].get("small", True):
+                                k5.append((code, prev, here))
+                            elif prev[1]["shape"] != s["shape"] or prev[1]["rc"] != s["rc"]:
+                                xshape.append((code, prev, here))
+                            else:
+                                other.append(f"recipe: alpha code {code!r} appears twice: {prev[0]} and {here[0]}")
+                        seen_alpha.setdefault(key, (here[0], dict(s, small=small), here[2]))
+
+    def result(self):
+        return self.other, self.k5, self.mangled, self.xshape
+
+
+def _recipe_failures(case, obs):
+    """(other_failures, k5_collisions, native_mangled, cross_shape_collisions) of one recipe case"""
     # codes the alpha generators really returned (complete only if no generator was truncated)
     recorded, complete = [], bool(obs.get("instrumented"))
     for g in obs.get("gens", []):
@@ -1073,54 +1798,136 @@ def _recipe_failures(case, obs):
             if g.get("ndraws", 0) > len(g.get("draws", [])):
                 complete = False
             recorded.extend(r["ok"] for r in g.get("draws", []) if isinstance(r.get("ok"), str))
-    seen_num, seen_alpha = {}, {}
-    for ri, row in enumerate(rows):
-        for fi, v in enumerate(row):
-            s = src[fi]
-            if v is None:
-                other.append(f"recipe: row {ri} field f{fi} is empty")
-                continue
-            if s["type"] == "num":
+    sc = _Scan()
+    if obs.get("mask_is_function") is False:
+        sc.other.append("recipe: mask_for_key returned two different masks for the same (key, numbits) during the "
+                        "runs of this recipe in one process")
+    sc.run(case, obs, recorded, complete)
+    return sc.result()
+
+
+def _kw_shape(o):
+    kw = o.get("kw")
+    if not isinstance(kw, dict) or not isinstance(kw.get("parts"), str):
+        return None
+    return _shape(kw["parts"])
+
+
+def _chain_failures(case, obs):
+    """(other, k5, mangled, xshape) over ALL runs and direct steps of one process"""
+    other = []
+    if obs.get("mask_changed"):
+        k, nb, m1, m2, s1, s2 = obs["mask_changed"]
+        other.append(f"chain: the scramble mask for (key {k}, numbits {nb}) was {m1} (step {s1}) and later {m2} (step {s2}) in the "
+                     f"same process: the scramble is not one function for the whole process")
+    rf = obs.get("replay_fail")
+    if rf:
+        other.append(f"chain: scramble_number({rf['number']},{rf['minbits']}) gave {rf['value']} in step "
+                     f"{rf['made_in_step']}; after step {rf['checked_after_step']} unscramble_number of that value "
+                     f"gives {rf['unscrambled_now']} and scramble_number of the same arguments gives "
+                     f"{rf['scrambled_now']}")
+    sc = _Scan()
+    for r in obs.get("runs", []):
+        step = case["steps"][r["step"]]
+        sc.run(_chain_run_case(case, step), r, label=f"step {r['step']} ")
+    o2, k5, mangled, xshape = sc.result()
+    other += o2
+    by_out = {}
+    for blk in obs.get("scrambles", []):
+        for (n, mb), r in zip(case["steps"][blk["step"]]["items"], blk["items"]):
+            if "ok" in r:
+                v = r["ok"]
                 if not isinstance(v, int):
-                    other.append(f"recipe: numeric id f{fi} is not an integer: {v!r}")
+                    other.append(f"chain: scramble_number({n},{mb}) returned a non-integer {v!r}")
                     continue
-                if s["unique"]:
-                    if v in seen_num:
-                        pri, pfi = seen_num[v]
-                        if src[pfi]["shape"] != s["shape"]:
-                            xshape.append((v, (pri, pfi), (ri, fi)))
-                        else:
-                            other.append(f"recipe: numeric id {v} appears twice: row {pri} f{pfi} and row {ri} f{fi}")
-                    seen_num.setdefault(v, (ri, fi))
-            else:
-                code = str(v)      # the output layer turns all-digit strings without a leading 0 into ints
-                abc = s["alphabet"]
-                bad = None
-                if any(ch not in abc for ch in code):
-                    bad = f"recipe: alpha code {v!r} (f{fi}) has characters outside {abc!r}"
-                elif len(code) < s["min_chars"]:
-                    bad = f"recipe: alpha code {v!r} (f{fi}) shorter than min_chars={s['min_chars']}"
-                if bad:
-                    origin = [c for c in recorded if type(_native(c)) is type(v) and _native(c) == v
-                              and all(ch in abc for ch in c) and len(c) >= s["min_chars"]]
-                    if case.get("native") and complete and not isinstance(v, str) and origin:
-                        mangled.append((v, origin[0], ri, fi))
-                    else:
-                        other.append(bad)
-                    continue
-                if s["unique"]:
-                    key = (abc, code)
-                    if key in seen_alpha:
-                        pri, pfi = seen_alpha[key]
-                        if small and s["default"] and src[pfi]["default"]:
-                            k5.append((code, (pri, pfi), (ri, fi)))
-                        elif src[pfi]["shape"] != s["shape"] or src[pfi]["rc"] != s["rc"]:
-                            xshape.append((code, (pri, pfi), (ri, fi)))
-                        else:
-                            other.append(f"recipe: alpha code {code!r} appears twice: row {pri} f{pfi} and "
-                                         f"row {ri} f{fi}")
-                    seen_alpha.setdefault(key, (ri, fi))
+                if v in by_out and by_out[v] != n:
+                    other.append(f"chain: scramble_number maps {by_out[v]} and {n} (minbits {mb}) to the same "
+                                 f"value {v}")
+                by_out[v] = n
+                if r.get("back", {}).get("ok") != n:
+                    other.append(f"chain: unscramble_number(scramble_number({n},{mb})) = {r.get('back')} "
+                                 f"instead of {n}")
+            elif n >= 0 and 10 <= mb <= 1012 and n < 10 ** 290:
+                other.append(f"chain: scramble_number({n},{mb}) raised {r['err']} on an ordinary input")
+    gens = obs.get("gens", []) if obs.get("installed") else []
+    ctxs = [o.get("ctx") for o in gens if isinstance(o.get("ctx"), int)]
+    if len(set(ctxs)) != len(ctxs):
+        dup = sorted(c for c, n in Counter(ctxs).items() if n > 1)
+        other.append(f"chain: generators of one process share context numbers {dup[:5]}")
+    for gi, o in enumerate(gens):
+        shape = _kw_shape(o)
+        kw = o.get("kw") or {}
+        abc = (kw.get("alphabet") or DEFAULT_ALPHABET) if o["type"] == "alpha" else ""
+        dupfree = isinstance(abc, str) and len(set(abc)) == len(abc)
+        if shape is not None and "PIndex" in shape and o.get("dup_within") and dupfree:
+            a, b, v = o["dup_within"]
+            other.append(f"chain: generator {gi} (template {kw.get('parts')!r}, made in step {o['made_in_step']}) "
+                         f"produced {v!r} twice: draws {a} and {b}")
+        if o.get("bad_alpha"):
+            what, k, v = o["bad_alpha"]
+            other.append(f"chain: alpha generator {gi} draw {k}: code {v!r} violates {what} "
+                         f"(alphabet {kw.get('alphabet')!r}, min_chars {kw.get('min_chars', 8)})")
+    for i, j, ki, kj, v in obs.get("cross", []):
+        if i >= len(gens) or j >= len(gens):
+            continue
+        gi, gj = gens[i], gens[j]
+        shi, shj = _kw_shape(gi), _kw_shape(gj)
+        if shi is None or shi != shj or "PContext" not in shi or "PIndex" not in shi or gi["type"] != gj["type"]:
+            continue       # only generators of the same shape containing context+index are claimed distinct here
+        ki_, kj_ = gi.get("kw") or {}, gj.get("kw") or {}
+        if gi["type"] == "num":
+            if ki_.get("randomize", True) != kj_.get("randomize", True):
+                continue
+        else:
+            ai, aj = ki_.get("alphabet") or DEFAULT_ALPHABET, kj_.get("alphabet") or DEFAULT_ALPHABET
+            if ai != aj or len(set(ai)) != len(ai) or \
+                    ki_.get("randomize_codes", True) != kj_.get("randomize_codes", True):
+                continue
+        other.append(f"chain: generators {i} (made in step {gi['made_in_step']}) and {j} (made in step "
+                     f"{gj['made_in_step']}), both template {ki_.get('parts')!r}, different context numbers, both "
+                     f"produced {v!r} (draws {ki} and {kj})")
     return other, k5, mangled, xshape
+
+
+def _tuple_layout(spec, o):
+    """the tuple of numbers a generator encodes, position by position: ("c", n) for a number that is the same for
+    every draw (literal, pid chunk, context number) and ("i",) for the index; None when unknown"""
+    shape = _shape(spec["template"])
+    if shape is None or "PIndex" not in shape:
+        return None
+    out = []
+    for p in shape:
+        if p == "PPid":
+            pid = _pid_list(o.get("pid_str"), spec.get("pid"))
+            if pid is None:
+                return None
+            out.extend(("c", x) for x in pid)
+        elif p == "PContext":
+            if not isinstance(o.get("ctx"), int):
+                return None
+            out.append(("c", o["ctx"]))
+        elif p == "PIndex":
+            out.append(("i",))
+        else:
+            m = re.fullmatch(r"\(PNum \(?(-?(?:0x)?[0-9a-fA-F]+)\)?\)", p)
+            if not m:
+                return None
+            out.append(("c", int(m.group(1), 0)))
+    return out
+
+
+def _never_equal(si, oi, sj, oj):
+    """a reason why the number tuples of two generators differ for all draws (then, by theorem
+    C13_values_collide_only_on_same_numbers and its alpha twin, their values never coincide), or None"""
+    a, b = _tuple_layout(si, oi), _tuple_layout(sj, oj)
+    if a is None or b is None:
+        return None
+    if len(a) != len(b):
+        return f"{len(a)} numbers against {len(b)}"
+    for pos, (x, y) in enumerate(zip(a, b)):
+        if x[0] == "c" and y[0] == "c" and x[1] != y[1]:
+            return f"position {pos}: {x[1]} against {y[1]}"
+    return None
 
 
 def oracle(case, obs):
@@ -1192,9 +1999,9 @@ def oracle(case, obs):
                         f"(alphabet {spec['alphabet']!r}, min_chars {spec['min_chars']})")
         for i, j, ki, kj, v in obs["cross"]:
             si, sj = specs[i], specs[j]
-            shi, shj = _shape(si["template"]), _shape(sj["template"])
-            if shi is None or shi != shj or "PContext" not in shi or "PIndex" not in shi:
-                continue     # only generators of the same shape containing context+index are claimed distinct
+            why = _never_equal(si, gobs[i], sj, gobs[j])
+            if why is None:
+                continue     # the number tuples of the two generators can coincide: nothing is claimed
             if si["type"] != sj["type"]:
                 continue
             if si["type"] == "num" and si["randomize"] != sj["randomize"]:
@@ -1203,22 +2010,21 @@ def oracle(case, obs):
                 ai, aj = si["alphabet"] or DEFAULT_ALPHABET, sj["alphabet"] or DEFAULT_ALPHABET
                 if ai != aj or len(set(ai)) != len(ai) or si["randomize_codes"] != sj["randomize_codes"]:
                     continue
-            return (f"gens: generators {i} and {j} (template {si['template']!r}, different context numbers) both "
-                    f"produced {v!r} (draws {ki} and {kj})")
+            return (f"gens: generators {i} (template {si['template']!r}) and {j} (template {sj['template']!r}) both "
+                    f"produced {v!r} (draws {ki} and {kj}) although their number tuples always differ ({why})")
         if obs.get("mask_changed"):
             k, nb, m1, m2 = obs["mask_changed"]
             return (f"gens: mask_for_key({k},{nb}) returned {m1} and later {m2} in the same process: "
                     f"scramble_number is no longer a function of its input (the injectivity argument needs it)")
         return None
-    if kind == "recipe":
-        other, k5, mangled, xshape = _recipe_failures(case, obs)
+    if kind in ("recipe", "chain"):
+        other, k5, mangled, xshape = _recipe_failures(case, obs) if kind == "recipe" else _chain_failures(case, obs)
         if other:
             return other[0]
         if xshape:
             v, a, b = xshape[0]
             return (f"cross-shape-class: generators with different template shapes both produced {v!r} "
-                    f"(row {a[0]} f{a[1]}: {case['fields'][a[1]]}, row {b[0]} f{b[1]}: {case['fields'][b[1]]}); "
-                    f"{len(xshape)} such collisions")
+                    f"({a[0]}: {a[2]}, {b[0]}: {b[2]}); {len(xshape)} such collisions")
         if mangled:
             v, c, ri, fi = mangled[0]
             return (f"native-literal-class: snowfakery_version 3 emitted the alpha code {c!r} as {v!r} "
@@ -1226,7 +2032,7 @@ def oracle(case, obs):
         if k5:
             code, a, b = k5[0]
             return (f"K5-class: default alpha generators in small-id mode emitted {code!r} twice "
-                    f"(row {a[0]} f{a[1]} and row {b[0]} f{b[1]}); {len(k5)} such collisions")
+                    f"({a[0]} and {b[0]}); {len(k5)} such collisions")
         return None
 
 
@@ -1242,10 +2048,11 @@ def match_finding(case, obs, msg, findings):
     C13-native-literal: a `snowfakery_version: 3` recipe whose ONLY failures are alpha field values that equal
     ast.literal_eval(code) of a code the generator really returned (and that code itself is fine)."""
     ids = {f.get("id") for f in findings}
-    if case.get("kind") != "recipe" or not isinstance(msg, str):
+    if case.get("kind") not in ("recipe", "chain") or not isinstance(msg, str):
         return None
     try:
-        other, k5, mangled, xshape = _recipe_failures(case, obs)
+        other, k5, mangled, xshape = _recipe_failures(case, obs) if case["kind"] == "recipe" else \
+            _chain_failures(case, obs)
     except Exception:
         return None
     if other:
@@ -1254,7 +2061,8 @@ def match_finding(case, obs, msg, findings):
         return XSHAPE
     if msg.startswith("native-literal-class") and NATIVE in ids and case.get("native") and mangled and not xshape:
         return NATIVE
-    if msg.startswith("K5-class") and K5 in ids and not case.get("big") and k5 and not mangled and not xshape:
+    if msg.startswith("K5-class") and K5 in ids and (case["kind"] == "chain" or not case.get("big")) and k5 \
+            and not mangled and not xshape:
         return K5
     return None
 
@@ -1271,6 +2079,8 @@ def nontrivial(case, obs):
         return any(o.get("n", 0) - o.get("nerr", 0) >= 2 for o in obs["gens"])
     if kind == "recipe":
         return len(obs.get("rows", [])) >= 2
+    if kind == "chain":      # at least two runs that produced rows
+        return sum(1 for r in obs.get("runs", []) if len(r.get("rows", [])) >= 1) >= 2
     return False
 
 
@@ -1280,6 +2090,7 @@ def stats(cases, obss):
     abc_sizes, tpl_parts, tpl_len, gen_types, draws = Counter(), Counter(), Counter(), Counter(), Counter()
     recipe_modes, recipe_rows, pid_kinds = Counter(), 0, Counter()
     features = Counter()
+    chain = Counter()
     total_draws = total_numbers = 0
     for c, o in zip(cases, obss):
         if not isinstance(o, dict):
@@ -1328,11 +2139,39 @@ def stats(cases, obss):
                 features["recipe_native_types"] += 1
             recipe_rows += len(o.get("rows", []))
             outcomes["recipe:" + (o.get("err") or "ok")] += 1
+        elif k == "chain":
+            runs = [st for st in c["steps"] if st["op"] == "run"]
+            chain["chains"] += 1
+            chain["runs_per_chain:" + str(len(runs))] += 1
+            chain["runs_fresh"] += sum(1 for st in runs if not st["cont"])
+            chain["runs_continuation"] += sum(1 for st in runs if st["cont"])
+            chain["runs_plugin_declared"] += sum(1 for st in runs if c["lineages"][st["lin"]].get("plugin", True))
+            chain["runs_builtins_only"] += sum(1 for st in runs if not c["lineages"][st["lin"]].get("plugin", True))
+            chain["runs_big_ids"] += sum(1 for st in runs if st["big"])
+            chain["runs_small_ids"] += sum(1 for st in runs if not st["big"])
+            modes = {bool(st["big"]) for st in runs}
+            chain["chains_mixing_id_modes"] += len(modes) > 1
+            chain["chains_with_2_recipes"] += len({st["lin"] for st in runs}) > 1
+            chain["steps_direct_scramble_widths"] += sum(1 for st in c["steps"] if st["op"] == "scramble")
+            chain["steps_cache_flood"] += sum(1 for st in c["steps"] if st["op"] == "flush")
+            chain["steps_objects_across_runs"] += sum(1 for st in c["steps"] if st["op"] == "draw")
+            chain["checkpoints_" + str(c.get("checkpoints"))] += 1
+            chain["rows"] += sum(len(r.get("rows", [])) for r in o.get("runs", []))
+            chain["generators"] += len(o.get("gens", []))
+            chain["draws"] += sum(g.get("n", 0) for g in o.get("gens", []))
+            chain["mask_table_entries"] += len(o.get("masks", []))
+            widths = {m[1] for m in o.get("masks", [])}
+            chain["distinct_numbits:" + ("1-3" if len(widths) <= 3 else "4-10" if len(widths) <= 10 else ">10")] += 1
+            chain["scramble_calls_replayed_later"] += o.get("n_scr", 0) if o.get("replayed") else 0
+            chain["trace_complete"] += bool(o.get("installed") and o.get("complete"))
+            for r in o.get("runs", []):
+                outcomes["chain-run:" + (r.get("err") or "ok")] += 1
     return {"kinds": dict(kinds), "scramble_numbers": total_numbers, "number_digits": dict(digits),
             "minbits": dict(minbits), "alphabet_sizes": {str(k): v for k, v in sorted(abc_sizes.items())},
             "generator_types": dict(gen_types), "template_lengths": {str(k): v for k, v in tpl_len.items()},
             "template_parts": dict(tpl_parts), "pid": dict(pid_kinds), "draws_per_generator": dict(draws),
             "total_generator_draws": total_draws, "recipe_modes": dict(recipe_modes), "recipe_rows": recipe_rows, "features": dict(features),
+            "chains_of_runs_in_one_process": dict(chain),
             "outcomes": dict(outcomes)}
 
 
@@ -1359,6 +2198,18 @@ def shrink(case):
         for i, (gi, n) in enumerate(sched):
             if n > 2 and gi != "flush":
                 yield dict(case, schedule=sched[:i] + [[gi, max(2, n // 4)]] + sched[i + 1:])
+    elif kind == "chain":
+        steps = case["steps"]
+        for i in range(len(steps)):         # drop a step (draw steps refer to objects by position: keep objects)
+            if len(steps) > 1 and steps[i]["op"] != "objects":
+                yield dict(case, steps=steps[:i] + steps[i + 1:])
+        for i, st in enumerate(steps):
+            if st["op"] == "run" and st["count"] > 1:
+                yield dict(case, steps=steps[:i] + [dict(st, count=max(1, st["count"] // 2))] + steps[i + 1:])
+            if st["op"] == "run" and st["iterations"] > 1:
+                yield dict(case, steps=steps[:i] + [dict(st, iterations=1)] + steps[i + 1:])
+        if case.get("checkpoints") == "every":
+            yield dict(case, checkpoints="end")
     elif kind == "recipe":
         if case["iterations"] > 1:
             yield dict(case, iterations=case["iterations"] - 1)
@@ -1380,4 +2231,7 @@ def directed_search(rng, disagreeing):
     out.extend(gen_base(rng) for _ in range(200))
     out.extend(gen_process(rng, "quick") for _ in range(60))
     out.extend(gen_recipe(rng) for _ in range(40))
+    out.extend(gen_chain(rng, "quick") for _ in range(30))
+    out.extend(gen_literal_pairs(rng) for _ in range(30))
+    out.extend(gen_padding_probe(rng, abc) for abc in ("GATC", "TGCA", "ZYX", "BA", "cba", None, None, None))
     return out
